@@ -36,7 +36,8 @@ def plant_clash(rng, recs):
 
 class C04(ProgramProperty):
     id = "C04"
-    theorems = []
+    theorems = ["C04_record", "C04_iff", "C04_which", "C04_listing", "C04_owner", "C04_bimap", "C04_loader_prefix_map",
+                "C04_loader_priority"]
     lean_modules = ["CuriesVerif.Properties.C04"]
     rule = ("one case = one record collection, valid (60%, up to 12 records: no false rejections) or with one or two "
             "planted clashes (canonical-canonical, canonical-synonym, synonym-synonym on the CURIE side, the URI side "
